@@ -67,16 +67,17 @@ type EditItem struct {
 }
 
 type Step struct {
-	Kind    string     `json:"kind"`          // phase handoff crypto rekey
-	Key     []byte     `json:"key,omitempty"` // rekey: the key to install (default: the setup's)
-	ASends  bool       `json:"a_sends,omitempty"`
-	SOps    []SOp      `json:"sops,omitempty"`
-	Edit    []EditItem `json:"edit,omitempty"`
-	HasEdit bool       `json:"has_edit,omitempty"`
-	NoWire  bool       `json:"no_wire,omitempty"` // do not compare this phase\'s wire frames with the model (covered elsewhere)
-	ROps    []ROp      `json:"rops,omitempty"`
-	WhoA    bool       `json:"who_a,omitempty"`
-	On      bool       `json:"on,omitempty"`
+	Kind     string     `json:"kind"`          // phase handoff crypto rekey
+	Key      []byte     `json:"key,omitempty"` // rekey: the key to install (default: the setup's)
+	ASends   bool       `json:"a_sends,omitempty"`
+	SOps     []SOp      `json:"sops,omitempty"`
+	Edit     []EditItem `json:"edit,omitempty"`
+	HasEdit  bool       `json:"has_edit,omitempty"`
+	NoWire   bool       `json:"no_wire,omitempty"` // do not compare this phase\'s wire frames with the model (covered elsewhere)
+	ROps     []ROp      `json:"rops,omitempty"`
+	WhoA     bool       `json:"who_a,omitempty"`
+	SoftFail bool       `json:"soft_fail,omitempty"` // the case goes on after a rejected EndMessageRead ending this phase
+	On       bool       `json:"on,omitempty"`
 }
 
 type Setup struct {
@@ -399,9 +400,13 @@ func Exec(c *Case) (obs *Obs, term string) {
 			stepTerms = append(stepTerms, phaseTerm(st, po))
 			// stop after a receive failure: the model does not follow a failed receiver
 			failed := false
-			for _, r := range po.RRes {
+			for ri, r := range po.RRes {
 				if !r.OK {
 					failed = true
+					// a rejected EndMessageRead as the last op is a clean refusal the model follows
+					if st.SoftFail && ri == len(po.RRes)-1 && ri < len(st.ROps) && st.ROps[ri].Op == "end" {
+						failed = false
+					}
 				}
 			}
 			if failed {
